@@ -540,9 +540,7 @@ func runC02(cfg config) {
 	{ // a List whose entries hold a typed reference to every resource type, every third with a version
 		var fnames []string
 		for f := range refOneofFields {
-			if f != "resource_id" && f != "domain_resource_id" && f != "metadata_resource_id" {
-				fnames = append(fnames, f)
-			}
+			fnames = append(fnames, f) // (the abstract types Resource / DomainResource / MetadataResource have members too)
 		}
 		sort.Strings(fnames)
 		for lo := 0; lo < len(fnames); lo += 50 {
